@@ -32,19 +32,48 @@ fn cmd_replay(args: &[String]) {
     let result_file = arg_val(args, "--result");
     let only: Option<u64> = arg_val(args, "--only").and_then(|s| s.parse().ok());
     let threads: usize = arg_val(args, "--threads").and_then(|s| s.parse().ok()).unwrap_or(8);
+    let obs_sample: u64 = arg_val(args, "--obs-sample").and_then(|s| s.parse().ok()).unwrap_or(0);
     let f = std::io::BufReader::new(std::fs::File::open(file).expect("open paths"));
     let mut lines = f.lines();
     let head: serde_json::Value = serde_json::from_str(&lines.next().expect("header").unwrap()).expect("header json");
     let cfg: world::Cfg = serde_json::from_value(head["cfg"].clone()).expect("cfg");
+    let mut labels: Vec<replay::Step> = vec![];
+    let mut nodes: Vec<Arc<replay::Post>> = vec![];
     let mut paths: Vec<replay::PathRec> = vec![];
     for l in lines {
         let l = l.unwrap();
         if l.trim().is_empty() {
             continue;
         }
-        let p: replay::PathRec = serde_json::from_str(&l).expect("path json");
-        if only.map(|o| o == p.id).unwrap_or(true) {
-            paths.push(p);
+        let v: serde_json::Value = serde_json::from_str(&l).expect("json line");
+        if let Some(ls) = v.get("labels") {
+            labels = serde_json::from_value(ls.clone()).expect("labels");
+        } else if v.get("n").is_some() {
+            let p: replay::Post = serde_json::from_value(v["post"].clone()).expect("post");
+            nodes.push(Arc::new(p));
+        } else if let Some(es) = v.get("e") {
+            let id = v["id"].as_u64().unwrap();
+            if !only.map(|o| o == id).unwrap_or(true) {
+                continue;
+            }
+            let steps = es
+                .as_array()
+                .unwrap()
+                .iter()
+                .map(|p| {
+                    let li = p[0].as_u64().unwrap() as usize;
+                    let ni = p[1].as_u64().unwrap() as usize;
+                    let mut s = labels[li].clone();
+                    s.post = Some(nodes[ni].clone());
+                    s
+                })
+                .collect();
+            paths.push(replay::PathRec { id, steps });
+        } else if v.get("steps").is_some() {
+            let p: replay::PathRec = serde_json::from_value(v).expect("path json");
+            if only.map(|o| o == p.id).unwrap_or(true) {
+                paths.push(p);
+            }
         }
     }
     let paths = Arc::new(paths);
@@ -65,10 +94,15 @@ fn cmd_replay(args: &[String]) {
             if i >= paths.len() {
                 break;
             }
-            let mut rec = obs::Recorder::new(want_obs);
+            // fast pass without recording; executions that do not conform (and a sample
+            // of those that do) are re-executed - the schedule is deterministic - with the
+            // observation recorder on
+            let mut rec = obs::Recorder::new(false);
             let r = replay::run_path(&cfg, &paths[i], &mut rec);
-            // non-conforming runs are always worth logging; conforming ones too when asked
-            if want_obs {
+            let sampled = obs_sample > 0 && (paths[i].id % obs_sample == 0);
+            if want_obs && (!r.conform || sampled) {
+                let mut rec = obs::Recorder::new(true);
+                let _ = replay::run_path(&cfg, &paths[i], &mut rec);
                 obs_out.lock().unwrap().push((paths[i].id, std::mem::take(&mut rec.lines)));
             }
             results.lock().unwrap().push(r);
